@@ -58,6 +58,15 @@ func (cfg *Config) merge(src *Config) error {
 		return err
 	}
 
+	// mergo keeps destination's non-empty container, variables have to be merged explicitly
+	if src.Variables != nil {
+		if cfg.Variables == nil {
+			cfg.Variables = src.Variables
+		} else {
+			cfg.Variables = cfg.Variables.Merge(src.Variables)
+		}
+	}
+
 	return nil
 }
 
